@@ -103,6 +103,11 @@ func scenarioC17(rc *RunCtx) {
 	fl.NoFailFile = true
 	fl.Debug = false
 	fl.Verbose = false
+	if fl.ShrinkTime != 0 {
+		// the differential pair does not see the same simulated time (handling the planted files costs harness calls),
+		// so the minimization result must not depend on it: no time for minimization at all, or more than can pass
+		fl.ShrinkTime = time.Hour
+	}
 	name := genName(t, false)
 	dir := rc.FreshDir()
 	variant := *base
